@@ -7,6 +7,8 @@
 #                 RestartingDeferral + TableManager through the real glue, interleaved with
 #                 insert_route calls; shard i of `nshards` takes the (first,second)-event pairs = i mod nshards
 #   part=machine  same enumeration on the bare RestartingDeferral (outputs + is_completed judged)
+#   part=conc     concurrent trials: 1-2 session threads insert/remove on hot prefixes while a third thread ends the
+#                 deferral through the glue (2 and 4 shards, verif_hooks delay injection), judged at quiescence
 #   part=rnd      random configurations / sequences up to 40 events, glue and PeerSession::process_effects modes,
 #                 plus the early-session scenarios (a session established during the deferral stays up across the release)
 _T = "event::verif::c11::run"
@@ -20,6 +22,8 @@ CFG = dict(
               "exactly-once: at release every held prefix is announced exactly once with its full path list; nothing is announced a second time afterwards",
               "held/initial-dump: the real PeerSession::on_established, run at points of the histories, sends no route of a family that must be held to the new session; "
               "a session that stays up across the release is sent every held prefix exactly once (early-session scenarios)",
+              "concurrent (part=conc, judged at quiescence, valid for every linearisation): last NlriChange per prefix on the registered peer channel == the RIB's path list; "
+              "held prefixes not touched by a concurrent thread announced exactly once; restarting flag cleared and no shard still deferring",
               "non-GR peers never block",
               "terminates: nothing pending => Global.selection_deferral (restarting flag) cleared, later inserts announced immediately on every shard; flag not cleared while a family must be held",
               "no panic"],
@@ -39,14 +43,19 @@ CFG = dict(
                          "terminates:judged": 11000, "flag-held:judged": 300000,
                          "random:session-mode": 400, "random:2-shards": 400,
                          "initial-dump:sessions": 25000, "initial-dump:released-prefix-sent": 12000,
-                         "early-session:scenarios": 6}),
+                         "early-session:scenarios": 6,
+                         "conc:trials": 1000, "conc:trials-2-shards": 400, "conc:trials-4-shards": 400,
+                         "conc:overlapping-trials": 900, "conc:session-ops-between-shard-releases": 2500,
+                         "conc:final-view-prefixes-agree": 20000, "conc:untouched-prefix-announced-once": 8000,
+                         "conc:shard-probes-announced": 5000}),
     # quick: coupled depth 4 over the full alphabet up to peer renaming (all peers configured alike),
     # bare machine depth 4 over every sequence, coupled depth 3 for asymmetric configurations, random
     quick=[e2("exh4", _T, 10, 300, part="exh", depth=4, cfg="full", nshards=10, sym=1),
            e2("mach4", _T, 4, 300, part="machine", depth=4, cfg="full", nshards=4),
            e2("exh3", _T, 2, 300, part="exh", depth=3, cfg="asym+chain", nshards=2),
            e2("sess3", _T, 2, 300, part="exh", depth=3, cfg="asym", mode="session", nshards=2),
-           e2("rnd", _T, 2, 30, part="rnd", count=2500)],
+           e2("rnd", _T, 2, 30, part="rnd", count=2500),
+           e2("conc", _T, 2, 60, part="conc", count=2500)],
     # thorough: everything unreduced at depth 4, depth 5 on 3 peers x 2 families (coupled) and on the
     # full alphabet (bare machine)
     thorough=[e2("exh4", _T, 16, 1500, part="exh", depth=4, cfg="full+asym", nshards=16),
@@ -54,5 +63,6 @@ CFG = dict(
               e2("sess4", _T, 4, 1500, part="exh", depth=4, cfg="full", peers=3, fams=2, mode="session", nshards=4),
               e2("mach4", _T, 4, 1500, part="machine", depth=4, cfg="full+chain+asym+mixed", nshards=4),
               e2("mach5", _T, 16, 1500, part="machine", depth=5, cfg="full", nshards=16),
-              e2("rnd", _T, 8, 60, part="rnd", count=100000000)],
+              e2("rnd", _T, 8, 60, part="rnd", count=100000000),
+              e2("conc", _T, 8, 60, part="conc", count=100000000)],
 )
